@@ -14,7 +14,9 @@ TranslateError naming file, line and construct); M = 2-D array, v = 1-D array, r
   evec_sort      len(x)                                   x a Python list (items, list of vectors) or a set
                  [None] * n                               -> repeat None n
                  [e, .., *[len(i) for i in (A + B)]]      -> a list of naturals (A + B: list concatenation)
-                 set(l) ; len(s) != 1 ; n not in s        -> py_set (duplicate-free), set_len, set_mem
+                 set(l) ; {e, .., *(len(i) for i in X)}   -> py_set (duplicate-free); a starred generator is exhausted on the
+                                                             spot, in order - a generator expression anywhere else is refused
+                 len(s) != 1 ; n not in s                 -> set_len, set_mem
                  numpy.array(A)                           -> np_array A (rows become the rows of a complex matrix)
                  numpy.conj(M) ; M1 @ M2.T                -> cm_conj ; cm_matmul_nt M1 M2 (entry i j = sum_k M1[i][k] * M2[j][k];
                                                              `@` is accepted ONLY with a `.T` right operand)
@@ -32,7 +34,10 @@ TranslateError naming file, line and construct); M = 2-D array, v = 1-D array, r
   evec_load      Q_COORDS_REGEX / MODE_INDEX_REGEX = re.compile(r"...") : the pattern text is parsed (Python's own
                  re._parser) and every node is translated: literal -> Ch, \\s \\d -> class, * + ? (greedy, on one literal or
                  class) -> Star / Plus / Opt, ( ) -> Open / Close (numbered groups, not nested)
-                 _read_vecs: `line = next(fp).strip()` and a yield of tuples `float(line[a:b]) + float(line[c:d]) * 1j`
+                 _read_vecs: `line = next(fp).strip()` and a yield of tuples `float(line[a:b]) + float(line[c:d]) * 1j`, or of calls
+                 helper(line, INT) of a straight-line module-level helper returning such an expression (inlined; slice bounds
+                 are sums / differences of integer literals and of parameters bound to literals, folded exactly)
+  all functions  straight-line module-level helpers are inlined at their call sites (translate_core.inline_call)
 
 ONLY PATTERN-CHECKED (exact text; no semantics in Coq) - glue:
   * module-level `import numpy`, `from numpy import newaxis as nax`, `import re` ...; docstrings; type annotations are ignored
